@@ -3,6 +3,7 @@ import Driver.Util
 import Driver.AmfText
 import Driver.ChunkOps
 import Driver.MsgText
+import Driver.HsOps
 open Rml
 
 namespace Driver
@@ -14,6 +15,7 @@ def showB (b : Bool) : String := if b then "1" else "0"
 
 structure St where
   chunk : ChunkSt := {}
+  hs : HsSt := {}
   dead : Bool := false
 
 def timeOp (a b : Nat) : String :=
@@ -47,7 +49,10 @@ def step (st : St) (line : String) : St × String :=
     | none =>
       match msgOp (tok :: rest) with
       | some out => (st, out)
-      | none => (st, "bad-op")
+      | none =>
+        match hsOp st.hs (tok :: rest) with
+        | some (h, out) => ({ st with hs := h }, out)
+        | none => (st, "bad-op")
   | _ => (st, "bad-op")
 
 partial def loop (h : IO.FS.Stream) (out : IO.FS.Stream) (st : St) : IO Unit := do
